@@ -27,6 +27,17 @@ class CallTimeout(Exception):
     pass
 
 
+class TraceTooLarge(Exception):
+    """A result grew beyond what is worth recording (terms x elements); the trace ends here, with that event in it."""
+
+    def __init__(self, recorder):
+        super().__init__("trace %s stopped: result too large" % recorder.id)
+        self.recorder = recorder
+
+
+WEIGHT_LIMIT = 6000       # coefficient entries in the results of one call (zero terms kept under retain_coefficients pile up)
+
+
 def _alarm(signum, frame):
     raise CallTimeout()
 
@@ -135,6 +146,10 @@ class Recorder:
                 ev[k] = v
         ev.update(extra)
         self.events.append(ev)
+        weight = sum(len(r.get("rows", ())) * max(1, len(r["coefs"][0]) if r.get("coefs") else 1) for r in res if r.get("kind") == "poly")
+        if weight > WEIGHT_LIMIT:
+            self.meta["truncated"] = "result of event %d has %d coefficient entries" % (len(self.events), weight)
+            raise TraceTooLarge(self)
         return new_regs
 
     def do(self, act: str, args=(), prop=None, targets=(), keep=True, **params):
